@@ -141,6 +141,32 @@ BUILT = {
         design="DESIGN.md section 6 C19",
         technique="TLA+ grammar (total parser model) model-checked with TLC + TLC trace validation of recorded parses of malformed specs",
     ),
+    "C11": dict(
+        text=("Unparse.tla is the intended serialiser; TLC checks on a term universe (JSON-like, type and data-path arguments, "
+              "path-looking literal mappings) that serialise -> parse gives back the term, the output is pure JSON and a "
+              "fixed point (the un-escaped variant is rejected). Every condition of the C11 fragment generated by the seeded "
+              "driver is serialised by the real to_json_like, pushed through json.dumps/json.loads, rebuilt and "
+              "re-serialised; TLC parses the real output with Grammar.tla and compares it with the original term."),
+        design="DESIGN.md section 6 C11",
+        technique="TLA+ unparse/parse round-trip laws model-checked with TLC + TLC trace validation of real serialisations",
+    ),
+    "C12": dict(
+        text=("TLC checks on a universe of 116 parts that full part specs parse back to the part; every path generated by the "
+              "seeded driver (API-built or spec-built; non-equality key/index conditions, value conditions, combined "
+              "conditions, labels) is serialised by the real to_part_specs (a refusal is accepted), pushed through JSON text "
+              "and rebuilt; TLC parses the emitted specs itself and compares what the two path terms select, with concrete "
+              "paths, on the probe documents; == is required when the original was built from specs."),
+        design="DESIGN.md section 6 C12",
+        technique="TLA+ part-spec round-trip laws model-checked with TLC + TLC trace validation of real serialisations (selection equality decided by the spec's resolver)",
+    ),
+    "C13": dict(
+        text=("TLC checks on the model that rule specs with casts round-trip and are pure JSON; seeded rules and schemas (with "
+              "and without casts) are serialised by the real to_json_like, pushed through real JSON text, rebuilt; TLC parses "
+              "the real output with Grammar.tla and compares with the original rule terms (cast included); validity, "
+              "failures and cast data of original and rebuilt objects are compared on 9 probe documents."),
+        design="DESIGN.md section 6 C13",
+        technique="TLA+ rule-spec round-trip laws model-checked with TLC + TLC trace validation of real serialisations",
+    ),
 }
 
 
